@@ -685,6 +685,20 @@ def a8_memo_key_coherence(ctx) -> None:
     for fi in P.all_functions():
         f = fi.node
         for iff in walk_local(f):
+            # `key != last and <more>`: the value is brought up to date only when <more> holds as well, although the key moved on
+            if isinstance(iff, ast.If) and isinstance(iff.test, ast.BoolOp) and isinstance(iff.test.op, ast.And):
+                cmp_ = [v for v in iff.test.values if isinstance(v, ast.Compare) and len(v.ops) == 1 and isinstance(v.ops[0], (ast.NotEq, ast.IsNot))
+                        and isinstance(v.left, ast.Name) and isinstance(v.comparators[0], ast.Name)]
+                for cm in cmp_:
+                    pair = {cm.left.id, cm.comparators[0].id}
+                    upd_ = [st for st in walk_local(iff) if isinstance(st, ast.Assign) and len(st.targets) == 1 and isinstance(st.targets[0], ast.Name)
+                            and isinstance(st.value, ast.Name) and {st.targets[0].id, st.value.id} == pair]
+                    if upd_:
+                        n += 1
+                        rest = [norm(v) for v in iff.test.values if v is not cm]
+                        ctx.violation("A8", iff.test, f"{fi.qualname}: the value remembered for `{upd_[0].targets[0].id}` is brought up to date only when {rest} holds as well: when "
+                                      f"`{upd_[0].value.id}` moves on while that is false, the next use works with the value of an earlier `{upd_[0].value.id}` (the class of "
+                                      "another label)")
             if not isinstance(iff, ast.If) or not isinstance(iff.test, ast.Compare) or len(iff.test.ops) != 1 or not isinstance(iff.test.ops[0], (ast.NotEq, ast.IsNot)):
                 continue
             a, b = iff.test.left, iff.test.comparators[0]
